@@ -27,7 +27,7 @@ pub fn property() -> Property {
             "the reference server's view of the plaintext (frame sequence); a packet = the frames up to and including its padding frame (all sizes are chosen so that every packet below stop ends in exactly one padding frame)",
             "one child process per history; kernel loopback",
         ],
-        families: vec![(Box::new(PushFam), 200, 4_000), (Box::new(ServerPushFam), 20_000, 1_000_000)],
+        families: vec![(Box::new(PushFam), 200, 4_000), (Box::new(ServerPushFam), 20_000, 1_000_000), (Box::new(MidWriteFam), 3_000, 100_000)],
     }
 }
 
@@ -510,6 +510,148 @@ impl Family for ServerPushFam {
         out.class_if(case.announce.is_some_and(|j| j != case.server_scheme), "md5-differs");
         out.class_if(case.announce == Some(case.server_scheme), "md5-equal");
         out.class_if(case.ending % 5 != 0, "scheme-text-ends-in-whitespace");
+        Ok(out)
+    }
+}
+
+// ------------------------------------------------------------------------------------------
+// family `midwrite` (Lab-M): the push arrives while the session is in the middle of a write
+
+#[derive(Clone, Debug, Serialize, Deserialize)]
+pub struct MidWriteCase {
+    /// the client's own scheme Fam(a) and the pushed scheme Fam(b), a != b
+    pub a: u8,
+    pub b: u8,
+    /// size of the write that is parked in the transport when the push arrives (0 = nothing is parked)
+    pub parked: usize,
+    /// transport capacity (bytes in flight) while the peer is not reading
+    pub capacity: usize,
+    /// payload sizes of the packets written after the push has been processed
+    pub later: Vec<usize>,
+}
+
+pub struct MidWriteFam;
+
+impl Family for MidWriteFam {
+    type Case = MidWriteCase;
+    fn name(&self) -> &'static str {
+        "midwrite"
+    }
+    fn strategy(&self, _tier: Tier) -> BoxedStrategy<MidWriteCase> {
+        (0u8..4, 1u8..4, prop_oneof![Just(0usize), Just(300), Just(5000), Just(20_000), Just(70_000)], prop_oneof![Just(64usize), Just(256), Just(4096)], proptest::collection::vec(prop_oneof![Just(1usize), Just(50), 1usize..1500], 1..5))
+            .prop_map(|(a, d, parked, capacity, later)| MidWriteCase { a, b: (a + d) % 4, parked, capacity, later })
+            .boxed()
+    }
+    fn run(&self, case: &MidWriteCase, _cx: &CaseCtx) -> CaseResult {
+        let mut out = Outcome::new();
+        let c = case.clone();
+        // A push replaces the *process-wide* default scheme and the session switches to that default:
+        // cases of this family must not run side by side in one process (they take about a millisecond).
+        static ONE_AT_A_TIME: std::sync::Mutex<()> = std::sync::Mutex::new(());
+        let _turn = ONE_AT_A_TIME.lock().unwrap_or_else(|e| e.into_inner());
+        let res: Result<(), Fail> = run_virtual(async move {
+            use tokio::io::AsyncReadExt;
+            let case = c;
+            let (sa, sb) = (fam_scheme(case.a), fam_scheme(case.b));
+            let mut l = link(PipeParams { capacity: case.capacity, ..Default::default() }, PipeParams::default());
+            let h = l.c2s.clone();
+            let sess = client_session(&mut l, padding(&sa), None);
+            // the peer: reads only when told to, can send frames
+            let mut sr = l.s_r.take().unwrap();
+            let mut sw = l.s_w.take().unwrap();
+            let go = Arc::new(tokio::sync::Notify::new());
+            let go2 = go.clone();
+            let reading = Arc::new(std::sync::atomic::AtomicBool::new(true));
+            let reading2 = reading.clone();
+            tokio::spawn(async move {
+                let mut b = vec![0u8; 65536];
+                loop {
+                    if !reading2.load(std::sync::atomic::Ordering::SeqCst) {
+                        go2.notified().await;
+                        continue;
+                    }
+                    match tokio::time::timeout(Duration::from_millis(5), sr.read(&mut b)).await {
+                        Ok(Ok(0)) | Ok(Err(_)) => break,
+                        _ => {}
+                    }
+                }
+            });
+            within(WATCHDOG, sess.clone().start_client()).await;
+            let (st, _rx) = match within(WATCHDOG, sess.open_stream()).await {
+                Some(Ok(x)) => x,
+                _ => return Err(Fail::plain("C19.adopt", "open_stream failed")),
+            };
+            sess.disable_buffering();
+            // packet 1: settings + SYN + destination, shaped by the client's own scheme
+            let r = within(WATCHDOG, sess.write_data_frame(st.id(), Bytes::from_static(b"\x01\x7f\x00\x00\x01\x00\x50"))).await;
+            crate::ensure!(matches!(r, Some(Ok(()))), "C19.adopt", "the first write failed");
+            settle(Duration::from_millis(50)).await;
+            // the peer stops reading; a write is parked in the transport; the push arrives
+            reading.store(false, std::sync::atomic::Ordering::SeqCst);
+            settle(Duration::from_millis(20)).await;
+            let parked = if case.parked > 0 {
+                let s2 = sess.clone();
+                let sid = st.id();
+                let n = case.parked;
+                Some(tokio::spawn(async move { s2.write_data_frame(sid, Bytes::from(vec![0x5a; n])).await.map_err(|e| e.to_string()) }))
+            } else {
+                None
+            };
+            settle(Duration::from_millis(50)).await;
+            {
+                use tokio::io::AsyncWriteExt;
+                let _ = sw.write_all(&rc::encode(&RFrame::new(rc::UPDATE_PADDING, 0, sb.clone().into_bytes()))).await;
+            }
+            settle(Duration::from_millis(200)).await;
+            // the peer reads again, the parked write gets through
+            reading.store(true, std::sync::atomic::Ordering::SeqCst);
+            go.notify_waiters();
+            go.notify_one();
+            if let Some(p) = parked {
+                match within(WATCHDOG, p).await {
+                    Some(Ok(Ok(()))) => {}
+                    other => return Err(Fail::plain("C19.adopt", format!("the write that was under way when the push arrived did not complete: {:?}", other))),
+                }
+            }
+            settle(Duration::from_millis(200)).await;
+            crate::ensure!(!sess.is_closed(), "C19.bad", "the session closed itself around the push");
+            // later packets of this session: shaped by the pushed scheme (line k is one fixed size, distinct
+            // for every scheme of the family)
+            let size = |j: u8, k: usize| 2000 + 1500 * j as usize + 100 * k;
+            // which packet index the session is at: 1 was the destination, the parked write (if any) took
+            // one index per frame it was split into
+            let mut k = 1 + if case.parked > 0 { rc::psh_frames(1, &vec![0u8; case.parked]).len() } else { 0 };
+            for (i, n) in case.later.iter().enumerate() {
+                k += 1;
+                if k >= 11 {
+                    break;
+                }
+                let before = h.raw_len();
+                let r = within(WATCHDOG, sess.write_data_frame(st.id(), Bytes::from(vec![0x33; *n]))).await;
+                crate::ensure!(matches!(r, Some(Ok(()))), "C19.adopt", "a write after the push failed");
+                settle(Duration::from_millis(100)).await;
+                let got = h.raw_len() - before;
+                let (want_b, want_a) = (size(case.b, k).max(n + 7), size(case.a, k).max(n + 7));
+                if got != want_b {
+                    return Err(Fail::plain(
+                        "C19.adopt",
+                        format!(
+                            "packet {k} (write #{i} after the push, {n} payload bytes) put {got} bytes on the transport; the pushed scheme Fam({}) prescribes {want_b}{} - the push arrived while a {}-byte write was {} (transport capacity {})",
+                            case.b,
+                            if got == want_a { format!(", the session's original scheme Fam({}) prescribes {want_a}: the session did not switch", case.a) } else { String::new() },
+                            case.parked,
+                            if case.parked > 0 { "parked in the transport" } else { "not under way" },
+                            case.capacity
+                        ),
+                    ));
+                }
+            }
+            Ok(())
+        });
+        res?;
+        out.nt(case.parked > case.capacity);
+        out.class_if(case.parked > case.capacity, "push-arrives-during-a-parked-write");
+        out.class_if(case.parked == 0, "push-arrives-between-writes");
         Ok(out)
     }
 }
